@@ -104,7 +104,11 @@ let wire_data_piece binary newline piece =
   then app
          (wire_fmt data_v2_binary_format
            ((wire_dec (N.of_nat (length piece))) :: (newline :: []))) piece
-  else app data_v2_base64_prefix (app piece newline)
+  else app data_v2_base64_prefix
+         (app piece
+           (match data_v2_piece_terminator with
+            | Some literal -> literal
+            | None -> newline))
 
 (** val wire_frames_go :
     byte list -> byte list -> nat -> nat list -> nat -> byte list list **)
